@@ -95,6 +95,7 @@ def wide_inputs():
     out.append('T("%s");' % ('ab c;, :- #' * (k * 10)))
     out.append('T(%s, %s.%s, %se%d);' % ('9' * k, '1' * k, '5' * k, '1', k))
     out.append('#%s\nT(1); /* %s */ T(2);%s' % (' c' * k * 20, ' d ' * k * 20, '\n' * k))
+  out += ['T(%s);' % ('9' * 400), 'T(0.%s);' % ('1' * 400), 'T(%s.5, x) :- A(x), x < %s;' % ('12' * 200, '7' * 330), 'T(%s);' % ('0' * 400 + '1')]
   # characters outside ASCII in strings, comments and quoted identifiers; other line conventions
   out += ['T("caf\u00e9", x) :- A(x);', 'T("\u65e5\u672c", "\U0001F600") :- A(x), x == "\u00df";', '# comment \u00e9\u00e8 \u65e5\nT(x) :- A(x);', '/* \u00e9 */ T(x) :- A(x); # \u00fc\nU(1);',
           'T(x) :- `t\u00e4ble`(x);', 'T(`\u00e9`: 1);', 'T(x) :- A(x), y == "\u00e9" ++ "z", z in ["\u00e0", "b"];', 'T("a\u00e9b") :- A(x) | B("\u00e9");',
@@ -138,7 +139,7 @@ def plan(ctx):
   files = sorted(glob.glob(os.path.join(ctx.repo, 'integration_tests', '*.l')))
   for ch in explore.shards(files, 8): tasks.append(('files', ch))
   tasks.append(('imports',))
-  nw = len(wide_inputs())
+  tasks.append(('sequence',))
   for i in range(8): tasks.append(('wide', i, 8))
   return tasks
 
@@ -186,6 +187,15 @@ def work(task):
       stats['corrupted'] += 1
       outcomes.add(compare(s, stats, viol, kind='corrupt'))
     if task[1] == 3: samples.append(dict(kind='single-token corruptions of', text=base, variants=stats['corrupted']))
+  elif task[0] == 'sequence':
+    # one process, several main files one after the other: what the experimental-syntax switch of one program leaves behind must not
+    # change how either parser reads the next program
+    inc = '# Signa inter verba conjugo, symbolum infixus evoco!\n'
+    sens = ['Q(x) :- A(x) <=> B(x);', 'T(y) :- y == 2*F(1);', 'U(x ---y) :- x == 1, y == 2;', 'T(x) :- A(x), B(x);']
+    for order in ([inc + sens[0]] + sens + [inc + sens[1]] + sens, sens + [inc + 'T(1);'] + sens, [inc + 'T(1);', inc + sens[2]] + sens[::-1]):
+      for t in order:
+        stats['statements'] += 1
+        outcomes.add(compare(t, stats, viol, kind='sequence'))
   elif task[0] == 'wide':
     for i, s_ in enumerate(wide_inputs()):
       if i % task[2] != task[1]: continue
@@ -201,6 +211,15 @@ def work(task):
         root = os.path.join(base, 'root%d' % k); os.makedirs(os.path.join(root, 'd'))
         open(os.path.join(root, 'lib.l'), 'w').write('Priv(%d);\n%sPub(x) :- Priv(x)%s;\n' % (k, 'Helper(x) :- Priv(x);\n' if k % 2 else '', ', Helper(x)' if k % 2 else ''))
         open(os.path.join(root, 'd', 'other.l'), 'w').write(('import lib.Pub as Base;\nQ(x + %d) :- Base(x);\n' % k) if k < 2 else ('Q(%d);\nQ(%d);\n' % (k, k + 1)))
+      # module files written with other line conventions (the main text reaches both parsers already decoded; imported files are read by each parser itself)
+      for name, nl in (('crlf', b'\r\n'), ('cr', b'\r'), ('mixed', b'\n\r\n')):
+        root = os.path.join(base, 'root_' + name); os.makedirs(os.path.join(root, 'd'))
+        body = [b'Priv(1);', b'# comment', b'Pub(x) :-', b'  Priv(x),', b'  x > 0;', b'F(x) = (if', b' x > 1 then 1 else 2);', b'Helper(x) :- Priv(x)', b';']
+        open(os.path.join(root, 'lib.l'), 'wb').write(nl.join(body) + nl)
+        open(os.path.join(root, 'd', 'other.l'), 'wb').write(nl.join([b'import lib.Pub as Base;', b'Q(x + 1) :-', b'  Base(x);']) + nl)
+        for mtext in mains + ['import lib.F;\nT(F(1));\n']:
+          stats['files'] += 1
+          outcomes.add(compare(mtext, stats, viol, import_root=root, kind='imports'))
       for rep in range(2):
         for k in range(4):
           for mtext in mains:
